@@ -398,3 +398,71 @@ def run(prog, tier, repo):
     res.floor('comment references created', n_refs, 60)
     res.analysed['drop_events_of_maybe_non_empty_vectors'] = n_drops
     return [res]
+
+
+# ---------------------------------------------------------------------------------------------------------------------
+# FRESH-REFERENCE (C09): comment references are unique owners of their store entry.
+#
+# The parser rewrites entries in place through CommentStore::get_mut (taking the comments of an unwrapped parenthesis,
+# prepending comments collected before a comma). That is only sound if no two holders share an entry, i.e. if every
+# non-constant CommentReference is the index of an entry pushed for it: the index operand is the store's `len()` read
+# before a `push` on the same store, and the push dominates the construction.
+
+def run_fresh_reference(prog, tier, repo):
+    from ..cfg import cfg_of, single_def
+    from ..dataflow import operand_root, root_local
+    from ..facts import callee
+    res = RuleResult('FRESH-REFERENCE', 'C09: every comment reference handed out by the comment store names an entry pushed for it '
+                     '(entries are rewritten in place through get_mut, so a shared entry loses or duplicates comments)')
+    n = 0
+    for b in prog.bodies.values():
+        if not b.crate.startswith('samlang'):
+            continue
+        cfg = None
+        k = 0
+        for bi, bl in enumerate(b.blocks):
+            if bl.cleanup:
+                continue
+            for si, st in enumerate(bl.stmts):
+                if st[0] != 'a' or st[2][0] != 'agg' or st[2][1][0] != 'adt' or not st[2][1][1].endswith('::CommentReference'):
+                    continue
+                if not st[2][2] or st[2][2][0][0] == 'k':
+                    continue            # the constant empty reference
+                n += 1
+                k += 1
+                key = f'{b.id}:reference#{k}'
+                cfg = cfg or cfg_of(b)
+                op = st[2][2][0]
+                # the index must be a whole copy of a `len()` result
+                r = op[1].local
+                seen = 0
+                sd = single_def(b, r)
+                while sd and sd[1] != 'term' and sd[2][0] == 'use' and sd[2][1][0] in ('c', 'm') and not sd[2][1][1].proj and seen < 8:
+                    seen += 1
+                    sd = single_def(b, sd[2][1][1].local)
+                ok = False
+                why = 'the index is not the store length read before a push'
+                if sd and sd[1] == 'term' and (callee(sd[2])[1] or '').endswith('::len') and sd[2][3]:
+                    len_bb = sd[0]
+                    store = operand_root(b, sd[2][3][0])
+                    store = (store[0], tuple(e[4] for e in store[1] if e[0] == 'f'))
+                    for bj, bl2 in enumerate(b.blocks):
+                        t = bl2.term
+                        if bl2.cleanup or t[0] != 'call' or not (callee(t)[1] or '').endswith('::push') or not t[3]:
+                            continue
+                        s2 = operand_root(b, t[3][0])
+                        s2 = (s2[0], tuple(e[4] for e in s2[1] if e[0] == 'f'))
+                        if s2 != store:
+                            continue
+                        if cfg.nodes_dominate([len_bb], bj) and len_bb != bj and cfg.nodes_dominate([bj], bi) and bj != bi:
+                            ok = True
+                    if not ok:
+                        why = 'no push on the same store between reading its length and building the reference, on every path'
+                if ok:
+                    res.ok(key, b.loc(st[3]), 'index = len() of the store before a dominating push on it')
+                else:
+                    res.violation(key, b.loc(st[3]), f'{b.name} builds a comment reference that is not the index of an entry pushed for '
+                                  f'it ({why}): two syntax nodes can then share one store entry, and rewriting the comments of one '
+                                  f'through get_mut silently drops or duplicates the comments of the other')
+    res.floor('non-constant comment reference constructions', n, 1)
+    return [res]
